@@ -460,8 +460,31 @@ func (w *World) ForgedCert(kind string, round int, value string) *specqbft.Signe
 	}
 	q := w.Quorum()
 	switch kind {
-	case "subQuorum": // fewer than quorum signers (all the adversary has, padded with nothing)
-		return multi([]OpID{b0}, []*bls.SecretKey{sk})
+	case "subQuorum":
+		// a multi-signer commit below quorum size: the adversary plus one honest member whose genuine commit it
+		// holds (a correctly aggregated two-signer message); without such a commit, two ids and a bad aggregate.
+		// (A single-signer commit of the adversary is an ordinary commit, not a forged certificate.)
+		for i := 1; i <= w.N; i++ {
+			h := OpID(i)
+			if w.Byz[h] {
+				continue
+			}
+			if hc := w.FindSimple(specqbft.CommitMsgType, h, round, value); hc != nil {
+				agg := clone(hc)
+				if err := agg.Aggregate(w.ByzCommit(b0, round, value)); err == nil {
+					sort.Slice(agg.Signers, func(a, b int) bool { return agg.Signers[a] < agg.Signers[b] })
+					agg.FullData = Value(value)
+					return agg
+				}
+			}
+		}
+		other := OpID(1)
+		if other == b0 {
+			other = 2
+		}
+		ids := []OpID{other, b0}
+		sort.Slice(ids, func(a, b int) bool { return ids[a] < ids[b] })
+		return multi(ids, []*bls.SecretKey{sk, sk})
 	case "dupSigner": // the Byzantine signer repeated to reach quorum size
 		ids, sks := []OpID{}, []*bls.SecretKey{}
 		for k := 0; k < q; k++ {
